@@ -16,6 +16,18 @@ def literal_only_int_arithmetic(case, info):
     return bool(info.get("literal_only")) and info.get("trap") in ("int-overflow", "int-literal-range")
 
 
+def reserved_name(case, info):
+    """F-J: the problem spells a tensor or an index as a reserved word (C/Python keyword, libc/stdbool name)."""
+    return bool(info.get("reserved"))
+
+
+def many_operands(case, info):
+    """F-L: more than 8 tensor occurrences (outside the bounded domain of the generators)."""
+    import re
+
+    return len(re.findall(r"[A-Za-z][A-Za-z0-9]*\(", case["assignment"].split("=", 1)[1])) > 8
+
+
 def always(case, info):
     return True
 
@@ -24,4 +36,6 @@ SIGNATURES = {
     "fused_product": fused_product,
     "literal_only_int_arithmetic": literal_only_int_arithmetic,
     "always": always,
+    "reserved_name": reserved_name,
+    "many_operands": many_operands,
 }
